@@ -227,6 +227,7 @@ def run(ctx):  # noqa: C901
     ctx.ob("R-PRED", sv, "k >= min(dim) => plain Euclidean norm", okb, "shortcut condition" if okb else "shortcut condition changed")
     so = m.func("sk_norm.sk_operator_norm")
     _monotone_bounds(ctx, so)
+    sk_reference_forms(ctx, so)
     # Proposition 4.2.11: upper bound = (k^2, 2)-norm of the realigned operator
     Nso = Normalizer(m, so, inline=False)
     for c, cal in calls_from(m, so, "kp_norm.kp_norm"):
@@ -379,3 +380,84 @@ def _monotone_bounds(ctx, f):
             if mentions_name(a, "upper_bound") or mentions_name(b, "lower_bound"):
                 badr.append(rn)
     ctx.ob("R-SDP", f, "every return is (lower, upper) in that order", not badr, f"{len(rets)} returns" if not badr else "a return hands back (upper, lower)", badr[0] if badr else None)
+
+
+# reference forms of the S(k) operator-norm bounds and relaxations (Johnston's thesis / the confirmed tree); compared after normalisation
+_SK_LOWER = [
+    "(k / r) * eig_val[t_ind]",
+    "(np.trace(mat) + np.sqrt((prod_dim * np.trace(mat @ mat) - np.trace(mat) ** 2) / (prod_dim - 1))) / prod_dim",
+    "min(1, k / np.ceil((dim[0] + dim[1] - np.sqrt((dim[0] - dim[1]) ** 2 + 4 * rank - 4)) / 2))",
+    "(min(dim) - k) * (rank + np.sqrt((prod_dim * rank - rank**2) / (prod_dim - 1))) / (prod_dim * (min(dim) - 1)) + (k - 1) / (min(dim) - 1)",
+    "np.real(cvx_optval) * (1 - dim[1] * gs / (2 * dim[1] - 1)) + xmineig * gs / (2 * dim[1] - 2)",
+    "__lower_bound_sk_norm_randomized(mat, k, dim, tol**2)",
+]
+_SK_UPPER = [
+    "sum(abs(eig_val[i]) * sk_vector_norm(eig_vec[:, i], k, dim) ** 2 for i in range(prod_dim))",
+    "kp_norm(realignment(mat, dim), k**2, 2)",
+    "np.real(cvx_optval)",
+]
+_SK_CONS = [
+    "rho >> 0",
+    "cvxpy.real(cvxpy.trace(rho)) <= 1",
+    "partial_transpose(rho, [1], dim) >> 0",
+    "k * cvxpy.kron(partial_trace(rho, [1], dim), np.eye(dim[1])) >> rho",
+    "sym_proj @ rho @ sym_proj == rho",
+    "partial_transpose(rho, list(range(0, int(np.ceil(j / 2)) + 1)), sym_dim) >> 0",
+]
+_SK_OBJ = [
+    "cvxpy.real(cvxpy.trace(mat @ rho))",
+    "cvxpy.real(cvxpy.trace(mat @ partial_trace(rho, list(range(2, j + 1)), sym_dim)))",
+]
+
+
+def sk_reference_forms(ctx, so):
+    """Every bound update `lower_bound = max(lower_bound, E)` / `upper_bound = min(upper_bound, E)` uses one of the reference expressions, and
+    the relaxations have the reference constraints and objectives.  Dropping an update only loosens a bound (still a valid bracket) and is
+    not reported; an update with an expression outside the table is (the bracket is then no longer one of the proven bounds)."""
+    m = ctx.model
+    N = Normalizer(m, so, inline=False)
+    E = lambda src: N(ast.parse(src, mode="eval").body)  # noqa: E731
+    ref_lo, ref_up = {repr(E(s)): s for s in _SK_LOWER}, {repr(E(s)): s for s in _SK_UPPER}
+    n_lo = n_up = 0
+    for n in walk_no_nested(so.node):
+        if isinstance(n, ast.Assign) and len(n.targets) == 1 and isinstance(n.targets[0], ast.Name) and n.targets[0].id in ("lower_bound", "upper_bound") and isinstance(n.value, ast.Call) \
+                and isinstance(n.value.func, ast.Name) and n.value.func.id in ("max", "min") and len(n.value.args) == 2:
+            which = n.targets[0].id
+            args = [a for a in n.value.args if not (isinstance(a, ast.Name) and a.id == which)]
+            if len(args) != 1:
+                continue
+            t = repr(N(args[0]))
+            ref = ref_lo if which == "lower_bound" else ref_up
+            fn_ok = n.value.func.id == ("max" if which == "lower_bound" else "min")
+            ok = t in ref and fn_ok
+            if which == "lower_bound":
+                n_lo += 1
+            else:
+                n_up += 1
+            ctx.ob("R-PRED", so, f"{which} update at line-order {n_lo if which == 'lower_bound' else n_up} uses a proven bound", ok,
+                   f"{ref[t][:60]}" if ok else
+                   (f"`{unparse(n)[:110]}` raises the lower bound with min / lowers the upper bound with max" if not fn_ok else
+                    f"`{unparse(args[0])[:110]}` is not one of the reference {which.split('_')[0]} bounds: the returned interval need no longer contain the S(k)-norm"), n)
+    # relaxations
+    sk = Skeleton(m, so)
+    ref_c = {}
+    for s in _SK_CONS:
+        node = ast.parse(s, mode="eval").body
+        rel = {ast.RShift: ">>", ast.LShift: "<<"}.get(type(node.op)) if isinstance(node, ast.BinOp) else {ast.LtE: "<=", ast.GtE: ">=", ast.Eq: "=="}[type(node.ops[0])]
+        l_, r_ = (node.left, node.right) if isinstance(node, ast.BinOp) else (node.left, node.comparators[0])
+        ref_c[(rel, repr(N(l_)), repr(N(r_)))] = s
+    flip = {">>": "<<", "<<": ">>", "<=": ">=", ">=": "<=", "==": "=="}
+    for c in sk.cons:
+        key = (c.rel, repr(c.lhs), repr(c.rhs))
+        key2 = (flip.get(c.rel, c.rel), repr(c.rhs), repr(c.lhs))
+        ok = key in ref_c or key2 in ref_c
+        ctx.ob("R-SDP", so, f"relaxation constraint `{(ref_c.get(key) or ref_c.get(key2) or unparse(c.node))[:70]}`", ok,
+               "reference constraint" if ok else f"`{unparse(c.node)[:100]}` is not a constraint of the reference relaxations (direction, factor order or operand changed): the optimum is no longer an upper bound", c.node)
+    ref_o = {repr(E(s)) for s in _SK_OBJ}
+    for p in sk.probs:
+        t = N(p.objective_node) if p.objective_node is not None else None
+        ok = t is not None and repr(t) in ref_o
+        ctx.ob("R-SDP", so, f"relaxation objective #{sk.probs.index(p)} == Re Tr(X rho) (restricted to the first copy)", ok,
+               "reference objective" if ok else f"objective {show(t)[:90] if t else '?'} changed", p.node)
+    from ..sdp import r_hermitian_vars
+    r_hermitian_vars(ctx, so, sk)
